@@ -224,7 +224,9 @@ def run(check, tier):
                           "f(f^-1(x)) = x are used (an unsat under fewer laws is still sound)",
                           "matplotlib's Normalize.__init__ is run with concrete stand-in limits; the symbolic limits are then set "
                           "on the interval object", "NaN/inf behaviour is exercised concretely (not a solver claim)"]
-    check.outside += ["degenerate intervals vmin == vmax", "LinearStretch with non-default slope/intercept", "integer input dtypes"]
+    check.outside += ["degenerate intervals vmin == vmax for the logarithmic / asinh stretches", "LinearStretch with non-default slope/intercept",
+                      "integer input dtypes beyond the engine-X menu (six dtypes, values at the extremes and interior of the dtype, four "
+                      "Python-int limit pairs, manual interval, linear / power stretch)", "the display functions of visualization.py"]
     check.engines.add("symnum + z3 " + __import__("z3").get_version_string())
     presets_ok = True
     for name, mk in cn.NORMALIZATION_PRESETS.items():
@@ -241,4 +243,5 @@ def run(check, tier):
     from ..xh import run_jobs
     run_jobs(check, "harness/c20_special.py", [dict(fn="special", timeout=300, key="special_values"),
                                                dict(fn="special_preset", timeout=300, key="special_values_presets"),
-                                               dict(fn="special__reach", timeout=60)])
+                                               dict(fn="special__reach", timeout=60), dict(fn="int_dtype__reach", timeout=60)]
+             + [dict(fn="int_dtype", fixed=dict(dt=dt), timeout=400, key="integer_dtypes") for dt in range(6)])
